@@ -85,6 +85,31 @@ fn gen_bytes(g: &mut Gen) -> Vec<u8> {
         g.small_bytes()
     }
 }
+/// Key-material-shaped bytes: lengths at and next to the field sizes of the registered curves and
+/// the symmetric key sizes, with the leading octets an integer or SEC1 point encoding would have
+/// (0x00 before a high bit, 0x00 0x00, 0xff, the 02/03/04 point prefixes).
+fn gen_coord(g: &mut Gen) -> Vec<u8> {
+    if g.bool() {
+        return gen_bytes(g);
+    }
+    let n = *g.pick(&[16usize, 24, 28, 31, 32, 33, 47, 48, 49, 56, 57, 64, 65, 66, 67, 97, 133]);
+    let mut b = g.bytes(n);
+    match g.below(7) {
+        0 => {
+            b[0] = 0;
+            b[1] |= 0x80;
+        }
+        1 => {
+            b[0] = 0;
+            b[1] = 0;
+        }
+        2 => b[0] = 0xff,
+        3 => b[0] = 0x02 + g.below(3) as u8,
+        4 => b.iter_mut().for_each(|x| *x = 0),
+        _ => {}
+    }
+    b
+}
 fn values_palette() -> Vec<Value> {
     vec![Value::Null, Value::from(7), Value::Bytes(vec![1])]
 }
@@ -724,10 +749,10 @@ impl Spec for KeySpec {
             return p[g.below(p.len())].clone();
         }
         match g.below(12) {
-            0 => KOp::NewEc2Pub(g.range_i64(0, 8), gen_bytes(g), gen_bytes(g)),
-            1 => KOp::NewEc2PubYSign(g.range_i64(0, 8), gen_bytes(g), g.bool()),
-            2 => KOp::NewEc2Priv(g.range_i64(0, 8), gen_bytes(g), gen_bytes(g), gen_bytes(g)),
-            3 => KOp::NewSymmetric(gen_bytes(g)),
+            0 => KOp::NewEc2Pub(g.range_i64(0, 8), gen_coord(g), gen_coord(g)),
+            1 => KOp::NewEc2PubYSign(g.range_i64(0, 8), gen_coord(g), g.bool()),
+            2 => KOp::NewEc2Priv(g.range_i64(0, 8), gen_coord(g), gen_coord(g), gen_coord(g)),
+            3 => KOp::NewSymmetric(gen_coord(g)),
             4 => KOp::Kty(g.text()),
             5 => KOp::KeyType(g.range_i64(0, 6)),
             6 => KOp::KeyId(gen_bytes(g)),
